@@ -9,9 +9,14 @@
       REASON of the status update: also when the core was cut off from the master while the
       task died and learns the terminal state only from the answer to the implicit RECONCILE
       of its re-subscription (kinds R…, `Kind.viaReconciliation`);
-    * core/environment/manager.go handleDeviceEvent(TASK_INTERNAL_ERROR): only while the
-      environment reports RUNNING: the task's ROLE is told ERROR (task.state is not
-      touched) and a goroutine queues env.TryTransition(STOP_ACTIVITY);
+    * core/environment/manager.go handleDeviceEvent(TASK_INTERNAL_ERROR): the task's ROLE is
+      told ERROR whatever the environment's state (task.state is not touched; `Cfg.roleAlways`,
+      the code as it is since "fix: a task's TASK_INTERNAL_ERROR reaches its role in every
+      environment state"), and — only if the environment reports RUNNING at that instant and the
+      task is CRITICAL (`Cfg.stopAsksCritical`, "fix: TASK_INTERNAL_ERROR of a non-critical task
+      does not stop the run") — the same goroutine then queues env.TryTransition(STOP_ACTIVITY).
+      Before the two repairs (`deviceLegacyCfg`): nothing at all unless RUNNING, and the STOP
+      whatever the task's criticality;
     * core/workflow/taskrole.go + aggregatorrole.go  = RoleTree.updState / updStatus;
     * core/workflow/parentadapter.go updateState: a NON-BLOCKING send on the channel of
       every subscriber (`notify`). The watcher's channel has a buffer of one value
@@ -85,18 +90,43 @@ structure Effect where
   roleOnly : Bool         -- only the role was told: task.state keeps its value
   deriving DecidableEq, Repr
 
+/-- What the repairs changed: in subscribeToWfState ("fix: the workflow state watcher cannot
+    miss an ERROR of the root role") and in handleDeviceEvent's TASK_INTERNAL_ERROR case. -/
+structure Cfg where
+  buffered : Bool   -- `notify := make(chan sm.State, 1)` (false: `make(chan sm.State)`)
+  reread : Bool     -- after a receive: `if wfState != sm.ERROR && wf.GetState() == sm.ERROR { wfState = sm.ERROR }`
+  stopAsksCritical : Bool  -- TASK_INTERNAL_ERROR: `if !t.GetTraits().Critical { return }` before TryTransition(STOP_ACTIVITY)
+  roleAlways : Bool        -- TASK_INTERNAL_ERROR: the role is told ERROR outside the test `env.CurrentState() == "RUNNING"`
+  deriving DecidableEq, Repr, Inhabited
+
+/-- The code as it is (tied to the source by `C03_watcher_is_code` and `C03_internal_effect_is_code`). -/
+def codeCfg : Cfg := { buffered := true, reread := true, stopAsksCritical := true, roleAlways := true }
+
+/-- The code as it was before any of the repairs (finding notify_dropped and the two below). -/
+def legacyCfg : Cfg := { buffered := false, reread := false, stopAsksCritical := false, roleAlways := false }
+
+/-- The code as it was before the two repairs of the TASK_INTERNAL_ERROR case (findings
+    internal_error_noncritical_stops_run, internal_error_ignored_unless_running), the watcher
+    already repaired. -/
+def deviceLegacyCfg : Cfg := { codeCfg with stopAsksCritical := false, roleAlways := false }
+
 /-- manager.go: TASK_FINISHED ⇒ "DONE"; TASK_LOST/KILLED/FAILED/ERROR of a locked task,
     executor lost, agent lost ⇒ "ERROR"; all of them status INACTIVE.
     The switch on the Mesos state in handleMessage(TaskStatusMessage) and — for a task that
     is in the roster — the call of updateTaskStatus do not look at the update's REASON (only
     the KILL of tasks that are NOT in the roster does): a terminal state learnt through
     reconciliation (R…) has the effect of the directly delivered one.
-    handleDeviceEvent: TASK_INTERNAL_ERROR does something only if the environment's
-    current state is RUNNING. -/
-def effect (k : Kind) (envSt : St) : Effect :=
+    handleDeviceEvent, TASK_INTERNAL_ERROR of a task whose role is critical or not (`crit`):
+    `running := env.CurrentState() == "RUNNING"`; the role is told ERROR (always / only if
+    running: `Cfg.roleAlways`); STOP_ACTIVITY is requested if running (and, `Cfg.stopAsksCritical`,
+    the task is critical). -/
+def effect (c : Cfg) (k : Kind) (envSt : St) (crit : Bool) : Effect :=
   match k with
   | .FINISHED | .RFINISHED => ⟨some .DONE, some .INACTIVE, false, false⟩
-  | .INTERNAL => if envSt = .RUNNING then ⟨some .ERROR, none, true, true⟩ else ⟨none, none, false, false⟩
+  | .INTERNAL =>
+    let running := decide (envSt = .RUNNING)
+    let tells := c.roleAlways || running
+    ⟨if tells then some .ERROR else none, none, running && (!c.stopAsksCritical || crit), tells⟩
   | .FAILED | .LOST | .KILLED | .TERROR | .EXEC | .EXEC0 | .AGENT | .AGENT0
   | .RFAILED | .RLOST | .RKILLED | .RTERROR | .RAGENT => ⟨some .ERROR, some .INACTIVE, false, false⟩
 
@@ -105,25 +135,22 @@ def Kind.hard : Kind → Bool
   | .FINISHED | .RFINISHED | .INTERNAL => false
   | _ => true
 
+/-- The process ended with exit status 0 (TASK_FINISHED, directly or through reconciliation):
+    the one kind of "the task is gone" that the code records as DONE (open finding
+    finished_not_error). -/
+def Kind.exitZero : Kind → Bool
+  | .FINISHED | .RFINISHED => true
+  | _ => false
+
 /-- Excluded-hypothesis side of the `_partial` theorems: does this kind, arriving while
-    the environment reports `envSt`, put the task's role into ERROR? -/
-def Kind.drives (k : Kind) (envSt : St) : Bool := (effect k envSt).st == some TState.ERROR
+    the environment reports `envSt`, put the task's role into ERROR? (Independent of the task's
+    criticality: `effect_st_crit`.) For the code as it is: every kind but `exitZero`, in every
+    state (`drives_code`). -/
+def Kind.drives (k : Kind) (c : Cfg) (envSt : St) : Bool := (effect c k envSt false).st == some TState.ERROR
 
-/-- Does it leave everything but the task's own role alone when the task is not critical? -/
-def Kind.quiet (k : Kind) (envSt : St) : Bool := !(effect k envSt).stop
-
-/-- The two things "fix: the workflow state watcher cannot miss an ERROR" changed in
-    subscribeToWfState. -/
-structure Cfg where
-  buffered : Bool   -- `notify := make(chan sm.State, 1)` (false: `make(chan sm.State)`)
-  reread : Bool     -- after a receive: `if wfState != sm.ERROR && wf.GetState() == sm.ERROR { wfState = sm.ERROR }`
-  deriving DecidableEq, Repr, Inhabited
-
-/-- The code as it is (tied to the source by `C03_watcher_is_code`). -/
-def codeCfg : Cfg := { buffered := true, reread := true }
-
-/-- The code as it was before the repair (finding notify_dropped). -/
-def legacyCfg : Cfg := { buffered := false, reread := false }
+/-- Does it leave everything but the task's own role alone when the task (critical or not:
+    `crit`) fails? For the code as it is: always, for a non-critical task (`quiet_code`). -/
+def Kind.quiet (k : Kind) (c : Cfg) (envSt : St) (crit : Bool) : Bool := !(effect c k envSt crit).stop
 
 /-- The watcher goroutine of subscribeToWfState. -/
 inductive Watch where
@@ -233,9 +260,37 @@ def roleStateAt (f : Forest) (p : List Nat) : TState :=
   | some l => l.2.1
   | none => .UNKNOWN
 
+/-- Does `p` address a critical task/call role of the forest? -/
+def critLeafAt : Forest → List Nat → Bool
+  | .nil, _ => false
+  | .leaf _ crit _ _ next, p =>
+    match p with
+    | [0] => crit
+    | (i + 1) :: rest => critLeafAt next (i :: rest)
+    | _ => false
+  | .agg _ _ kids next, p =>
+    match p with
+    | 0 :: rest => critLeafAt kids rest
+    | (i + 1) :: rest => critLeafAt next (i :: rest)
+    | [] => false
+
+/-- Does `p` address a non-critical task/call role? -/
+def plainLeafAt : Forest → List Nat → Bool
+  | .nil, _ => false
+  | .leaf _ crit _ _ next, p =>
+    match p with
+    | [0] => !crit
+    | (i + 1) :: rest => plainLeafAt next (i :: rest)
+    | _ => false
+  | .agg _ _ kids next, p =>
+    match p with
+    | 0 :: rest => plainLeafAt kids rest
+    | (i + 1) :: rest => plainLeafAt next (i :: rest)
+    | [] => false
+
 /-- One task affected by a failure of kind `k`. -/
 def failOne (c : Cfg) (k : Kind) (s : Sys) (p : List Nat) (ready : Bool) : Sys :=
-  let e := effect k s.env.st
+  let e := effect c k s.env.st (critLeafAt s.f p)
   let r := match e.st with
     | some st => updState s.f p st
     | none => (s.f, none)
@@ -244,6 +299,23 @@ def failOne (c : Cfg) (k : Kind) (s : Sys) (p : List Nat) (ready : Bool) : Sys :
     | none => r.1
   notify c { s with f := f2, stopReq := s.stopReq + (if e.stop then 1 else 0),
                     roleOnly := if e.roleOnly then (p, ownState s p (roleStateAt s.f p)) :: s.roleOnly else s.roleOnly } r.2 ready
+
+/-- The failure of one task whose update of the role's STATE is overwritten before anybody looks
+    at it — the victim's own reply to the transition in flight (`go updateTaskState(dst)`) runs
+    between the failure's write of the role and the root's recomputation / the root's hand-over
+    to the environment (`parent.updateState(r.state.get())` re-reads a root the reply has
+    recomputed): the role tree never shows the ERROR to the watcher. Everything else the
+    failure does (status, a requested STOP_ACTIVITY) happens. `updState` is atomic in this
+    model, so this is NOT a schedule of `failOne` + `apply`: it is the code's non-atomic
+    `updateTaskState`, open finding stale_update_overwrites_error; the driver offers it only
+    with the harness' evidence that the environment is still watched (`(again …)`), and
+    `C03_overwritten_update_keeps_watcher` says what that evidence must be. -/
+def failOneLost (c : Cfg) (k : Kind) (s : Sys) (p : List Nat) : Sys :=
+  let e := effect c k s.env.st (critLeafAt s.f p)
+  let f2 := match e.su with
+    | some su => (updStatus s.f p su).1
+    | none => s.f
+  { s with f := f2, stopReq := s.stopReq + (if e.stop then 1 else 0) }
 
 /-- A failure hitting several tasks (all tasks of an executor / agent), one after the other. -/
 def fail (c : Cfg) (k : Kind) (s : Sys) : List (List Nat × Bool) → Sys
@@ -413,33 +485,5 @@ def settle (c : Cfg) : Nat → Sys → Sys
 def drain (c : Cfg) (s : Sys) : Sys :=
   let s1 := if enabled s .take then istep c s .take else s
   if enabled s1 .look then istep c s1 .look else s1
-
-/-- Does `p` address a critical task/call role of the forest? -/
-def critLeafAt : Forest → List Nat → Bool
-  | .nil, _ => false
-  | .leaf _ crit _ _ next, p =>
-    match p with
-    | [0] => crit
-    | (i + 1) :: rest => critLeafAt next (i :: rest)
-    | _ => false
-  | .agg _ _ kids next, p =>
-    match p with
-    | 0 :: rest => critLeafAt kids rest
-    | (i + 1) :: rest => critLeafAt next (i :: rest)
-    | [] => false
-
-/-- Does `p` address a non-critical task/call role? -/
-def plainLeafAt : Forest → List Nat → Bool
-  | .nil, _ => false
-  | .leaf _ crit _ _ next, p =>
-    match p with
-    | [0] => !crit
-    | (i + 1) :: rest => plainLeafAt next (i :: rest)
-    | _ => false
-  | .agg _ _ kids next, p =>
-    match p with
-    | 0 :: rest => plainLeafAt kids rest
-    | (i + 1) :: rest => plainLeafAt next (i :: rest)
-    | [] => false
 
 end Failure
